@@ -69,6 +69,8 @@ pub const SEMANTICS_DOC: &str = r#"Semantics of the translation (rs2lean)
     x := { x with field := ← vecSet x.field i (old op e) }`.
   - a parameter `p: &mut S` of a regenerated struct is a mutable variable whose final value is (part of) the result;
     `f(x, ..);` as a statement of its own rebinds `x`.
+  - `self.m(args);` as a statement of its own, for a translated `&mut self` method `m` of the same type, rebinds the
+    fields `m` modifies (`let (white, black, ..) ← m white black .. args`).
 * OPAQUE FUNCTIONS: calls listed as opaque whose receiver is a global (`ROOK_MAGICS.get_attacks(sq, occ)`) or another
   type (`Zobrist::piece_square_hash(p, sq, c)`, the constant `Zobrist::BLACK_TO_MOVE_HASH`) become FUNCTION (value)
   parameters applied to the translated arguments; callers of such a function get the same parameters.
